@@ -88,15 +88,26 @@ Definition lf_insufficient_ok (c : c14_in) : bool :=
 Definition values_same (a b : list value) : bool :=
   Nat.eqb (length a) (length b) && forallb (fun xy => value_same (fst xy) (snd xy)) (combine a b).
 
+(* the domain of the property (= the premises of C14_lf / C14_ri / C14_total): amounts of pool UTxOs and of requested
+   outputs are non-negative, a stated limit is positive.  A few generated cases lie outside (negative quantities drive the
+   model's KeyError / InvalidData branches, limits 0 / -1 its falsy-limit branches); for those only the correspondence and
+   the pool-unmodified clause are checked. *)
+Definition in_domain (c : c14_in) : bool :=
+  forallb (fun v => negb (v_has_neg v)) (i_pool c)
+  && forallb (fun v => negb (v_has_neg v)) (i_outs c)
+  && (0 <=? i_fee c)
+  && match i_lim c with Some n => 0 <? n | None => true end.
+
 Definition c14_oracle (c : c14_in) (o : impl_out) (pool_after : list value) (same_objs : bool) : bool :=
   same_objs && values_same (i_pool c) pool_after &&
-  match o with
-  | IOk sel chg => c14_ok (i_pool c) (i_outs c) (i_lim c) (i_fee c) sel chg
-  | IErr e =>
-      is_sel_err e &&
-      match i_alg c, e with
-      | ALf, EInsufficient => lf_insufficient_ok c
-      | _, _ => true
-      end
-  | IOther => false
-  end.
+  (negb (in_domain c) ||
+   match o with
+   | IOk sel chg => c14_ok (i_pool c) (i_outs c) (i_lim c) (i_fee c) sel chg
+   | IErr e =>
+       is_sel_err e &&
+       match i_alg c, e with
+       | ALf, EInsufficient => lf_insufficient_ok c
+       | _, _ => true
+       end
+   | IOther => false
+   end).
